@@ -1315,12 +1315,12 @@ def u8_clone(m, mt, args, tys, dty):
 import struct, math
 
 
-@summary(r'core::f64::<impl f64>::to_bits')
+@summary(r'#superseded-2814845461860968169')
 def f64_to_bits(m, mt, args, tys, dty):
     return struct.unpack('<Q', struct.pack('<d', args[0]))[0]
 
 
-@summary(r'core::f64::<impl f64>::classify')
+@summary(r'#superseded-4146661920066772467')
 def f64_classify(m, mt, args, tys, dty):
     x = args[0]
     if x != x:
@@ -1344,7 +1344,7 @@ def fpcat_eq(m, mt, args, tys, dty):
     return deref(args[0]).variant == deref(args[1]).variant
 
 
-@summary(r'core::f64::<impl f64>::is_normal')
+@summary(r'#superseded--7261861251979199026')
 def f64_is_normal(m, mt, args, tys, dty):
     x = args[0]
     return x == x and x not in (float('inf'), float('-inf')) and abs(x) >= 2.2250738585072014e-308
